@@ -851,8 +851,31 @@ fn uniformity_large(r: &mut Report, seed: u64, thorough: bool) {
             let mut r = Report::new("gen", RULE);
             let src: Vec<i64> = (0..n as i64).collect();
             let mut rng = SplitMix::derive(seed ^ 0xB16_C011, (fi * 8) as u64 + n as u64);
+            let start = rng.clone();
             let real = choice_real(fl, (n % 3) as u8, &src, k, &mut rng);
             r.case(&format!("uniformity-large {fl} {n}"), true);
+            // The model of every flavour is "ask the uniform index primitive for an index below n, hand out that member"
+            // (Uniform<usize> for the owning wrapper, rand's slice::Choose for the borrowing ones; checked request by
+            // request on small collections).  Replay that on a clone of the generator: same members, same state after.
+            if real.built == "ok" && real.samples.len() == k && mutant().is_empty() {
+                let got: Vec<i64> = real.samples.iter().map(|(_, v)| *v).collect();
+                let mut sa = start.clone();
+                let ua = Uniform::new(0usize, n).expect("range");
+                let a_ok = got.iter().all(|v| ua.sample(&mut sa) as i64 == *v) && sa == rng;
+                let b_ok = a_ok || {
+                    let idx: Vec<usize> = (0..n).collect();
+                    let mut sb = start.clone();
+                    let ub = rand::distr::slice::Choose::new(&idx).expect("non-empty");
+                    got.iter().all(|v| *ub.sample(&mut sb) as i64 == *v) && sb == rng
+                };
+                if !b_ok {
+                    let mut sa = start.clone();
+                    let first = got.iter().position(|v| ua.sample(&mut sa) as i64 != *v);
+                    r.disagree(json!({"case": format!("uniformity-large {fl} len={n} samples={k}"), "real": format!("draw #{first:?} and/or the generator state afterwards differ"),
+                        "impl": "member at the index that the uniform index primitive (Uniform<usize> / slice::Choose below n) yields on the same stream",
+                        "what": "the members drawn from a large collection are not the ones the model's index primitive selects on the same stream"}));
+                }
+            }
             if real.built != "ok" || real.samples.len() != k {
                 r.violate(json!({"case": format!("uniformity-large {fl} len={n} samples={k}"), "what": "could not build / sample a non-empty collection", "real": real.built}));
                 return r;
